@@ -117,10 +117,11 @@ Definition bi_step_b (s : step) : bool :=
   st_builtin s && match st_kind s with KRegister => true | _ => false end
   && is_none (st_before s) && is_none (st_after s).
 Definition user_step_b (BN MN : list string) (s : step) : bool :=
-  negb (st_builtin s) && tgt_b BN MN (st_before s) && tgt_b BN MN (st_after s).
+  negb (st_builtin s) && tgt_b BN MN (st_before s) && tgt_b BN MN (st_after s)
+  && match st_kind s with KRegister => negb (mem BN (st_name s)) | _ => true end.
 (* bs: the default registration; us: the user's calls.  Their Before/After requests name a matched
    built-in of bs (live or removed by then) or a name under which no call of the history registers
-   anything; never "*". *)
+   anything; never "*"; no user callback is registered under the name of a (removed) built-in. *)
 Definition plugin_hist (bs us : list step) : bool :=
   forallb bi_step_b bs
   && forallb (user_step_b (matched_names bs) (matched_names (bs ++ us))) us.
@@ -188,9 +189,10 @@ Proof.
     - unfold MN. apply matched_names_in; [apply in_app_iff; left|]; assumption. }
   assert (FU : Forall (user_step BN MN) us).
   { apply Forall_forall. intros s Hs. rewrite forallb_forall in HU. specialize (HU s Hs).
-    unfold user_step_b in HU. rewrite !andb_true_iff, negb_true_iff in HU. destruct HU as ((Hb & Tb) & Ta).
-    repeat split; auto using tgt_b_tgt.
-    intro Hm. unfold MN. apply matched_names_in; [apply in_app_iff; right|]; assumption. }
+    unfold user_step_b in HU. rewrite !andb_true_iff, negb_true_iff in HU. destruct HU as (((Hb & Tb) & Ta) & Hk).
+    split; [exact Hb|]. split; [apply tgt_b_tgt, Tb|]. split; [apply tgt_b_tgt, Ta|]. split.
+    - intro Hm. unfold MN. apply matched_names_in; [apply in_app_iff; right|]; assumption.
+    - intro Ek. rewrite Ek in Hk. apply negb_true_iff, mem_false in Hk. exact Hk. }
   assert (OK : ok_hist BN MN r0 0%N (bs ++ us)).
   { apply ok_hist_build; auto. intros x Hx. apply in_app_iff. right. exact Hx. }
   pose proof (run_plugin BN MN (bs ++ us) (mk_proc [] []) r0 0%N None [] [] OK
